@@ -53,7 +53,8 @@ def run_benign(name, props):
     res = {}
     try:
         subprocess.run(["rsync", "-a", "--exclude", "target", "--exclude", ".git", "/repo/", repo + "/"], check=True)
-        r = subprocess.run("patch -p0 -s < %s" % bd, shell=True, cwd=repo, stdout=subprocess.PIPE, stderr=subprocess.STDOUT, text=True)
+        plevel = 1 if open(bd).read(200).startswith("diff --git") else 0
+        r = subprocess.run("patch -p%d -s < %s" % (plevel, bd), shell=True, cwd=repo, stdout=subprocess.PIPE, stderr=subprocess.STDOUT, text=True)
         if r.returncode != 0:
             return name, {"error": "patch does not apply: " + r.stdout[-300:]}
         env = dict(os.environ, VERIF_CACHE_DIR=os.path.join(scratch, "cache"), CARGO_NET_OFFLINE="true")
